@@ -531,11 +531,26 @@ def main(tier, replay=None):
                 break
         else:
             M = 1
-        A = rng.choice([0, M - 1, rng.below(M), rng.below(M)])
+        A = rng.choice([0, M - 1, rng.below(M), rng.below(M), D % M, (D - 1) % M, (D + 1) % M, (2 * D) % M, M // 2])
         if rng.chance(1, 8):
             A = vf.structured_int(rng, 3)        # any integer A: only the congruences are claimed then
-        e = rng.choice([0, D - 1, rng.below(D), rng.below(D)])
+        e = rng.choice([0, D - 1, rng.below(D), rng.below(D), A % D, (A + 1) % D, (A - 1) % D, M % D])
         add_cra(dom, not rng.chance(1, 4), M, D, A, e)
+    add_cra("mi64", True, 65521, 7, 1, 2)
+    # ---- incremental lifting chains by the functor, compared with RNSsystem::RnsToRing and the CRT oracle
+    for rnd in range(14 if quick else 300):
+        for mode in LIFT_MODES:
+            dom = rng.choice(["mdouble", "mi64", "mu64", "mint"])
+            maxp = maxcard[dom]
+            n = rng.choice([2, 2, 3, 3, 4, 5, 6, 7, 8] if quick else [2, 3, 4, 5, 6, 7, 8, 12, 20])
+            style = rng.choice(["smallprimes", "tiny", "word", "edge", "powers"] if maxp else ["smallprimes", "word", "multilimb", "powers"])
+            ps = gen_moduli(rng, n, maxp, style)
+            rs = gen_residues(rng, ps)
+            body = "%d %s %s" % (n, " ".join(map(str, ps)), " ".join(map(str, rs)))
+            cases.append({"kind": "lift", "hist": mode, "sub": dom, "ps": ps, "rs": rs, "impl": "lift %s %s %s" % (dom, mode, body),
+                          "model": "lift %s %s" % (facts["cra_variant"], body)})
+    cases.append({"kind": "lift", "hist": "prepared", "sub": "mi64", "ps": [65521, 7], "rs": [1, 2], "impl": "lift mi64 prepared 2 65521 7 1 2",
+                  "model": "lift %s 2 65521 7 1 2" % facts["cra_variant"]})
     # ---- Poly1CRT over GF(p)
     for rnd in range(20 if quick else 400):
         for hist in POLY_HISTS:
@@ -556,6 +571,20 @@ def main(tier, replay=None):
                 rs = [rs[0]] * n                  # constant polynomial: all higher coefficients vanish
             d = rng.range(0, 2 * n)
             cs = [rng.below(p) for _ in range(d + 1)]
+            kb = rng.below(8)
+            if kb == 0:
+                cs = [0]                                           # the zero polynomial
+            elif kb == 1:
+                cs = [rng.choice([1, p - 1, rng.below(p)])]        # a constant
+            elif kb == 2:
+                cs = [(-rng.choice(pts)) % p, 1]                    # X - a_i : vanishes at one of the points
+            elif kb == 3:
+                cs = [1]
+                for x in pts:                                      # prod (X - a_j): vanishes at every point, degree n
+                    cs = [((cs[k - 1] if k > 0 else 0) - x * (cs[k] if k < len(cs) else 0)) % p for k in range(len(cs) + 1)]
+            elif kb == 4:
+                cs = [rng.below(p) for _ in range(n - 1)] + [rng.range(1, p - 1) if p > 2 else 1]     # degree exactly n-1
+            d = len(cs) - 1
             il = "poly %s %s %d %d %s %s %d %s" % (hist, pdom, p, n, " ".join(map(str, pts)), " ".join(map(str, rs)), d, " ".join(map(str, cs)))
             ml = "poly %d %d %s %s %d %s" % (p, n, " ".join(map(str, pts)), " ".join(map(str, rs)), d, " ".join(map(str, cs)))
             cases.append({"kind": "poly", "hist": hist, "sub": pdom, "p": p, "pts": pts, "rs": rs, "cs": cs, "impl": il, "model": ml})
@@ -612,7 +641,7 @@ def main(tier, replay=None):
         try:
             if il.startswith(("CRASH", "EXCEPTION", "BAD-")):
                 spec_ok = False
-                cls = {"int": "IntRNSsystem", "rns": "RNSsystem<Integer,%s>" % CXX.get(c.get("sub"), "?"), "fixed": "RNSsystemFixed<Integer>",
+                cls = {"lift": "ChineseRemainder (lifting chain)", "int": "IntRNSsystem", "rns": "RNSsystem<Integer,%s>" % CXX.get(c.get("sub"), "?"), "fixed": "RNSsystemFixed<Integer>",
                        "cra": "ChineseRemainder", "poly": "Poly1CRT<%s>" % PCXX.get(c.get("sub"), "?")}[kind]
                 chk.count((kind, "crash", i), nontrivial=False)
                 chk.fail_input(cls + " (process died or threw)", "obtained by %s" % c.get("hist", ""), c, "a result", il,
@@ -678,6 +707,21 @@ def main(tier, replay=None):
                 elif c["red"] and A >= 0 and not (A <= r <= A + (D - 1) * (D - 1) * M):
                     spec_ok = False
                     chk.fail_input(site, "outside the proved range", c, "A <= res <= A + (D-1)^2 M", il, "")
+            elif kind == "lift":
+                ps, rs = c["ps"], c["rs"]
+                steps = [crt_oracle(ps[:k + 1], rs[:k + 1]) for k in range(len(ps))]
+                exp = [steps, [steps[-1]]]
+                exp_toks = flat(exp)
+                got = [ints(g) for g in groups(il)]
+                chk.count((kind, c["sub"], c["hist"], tuple(ps), tuple(rs)), nontrivial=(steps[-1] > 1))
+                if got != exp:
+                    spec_ok = False
+                    if got[1:] != exp[1:]:
+                        chk.fail_input("RNSsystem<Integer,%s>::RnsToRing" % CXX[c["sub"]], "obtained by fresh, %d moduli" % len(ps), c, exp, il, "differs from the CRT value")
+                    else:
+                        k = [j for j in range(min(len(got[0]), len(steps))) if got[0][j] != steps[j]]
+                        chk.fail_input(SITE_CRA, "incremental lifting (%s), step %s" % (c["hist"], k[0] if k else "?"), c, exp, il,
+                                       "the functor built for (M_i, p_i) does not return the unique integer of [0, M_i p_i) when used in a lifting chain")
             elif kind == "poly":
                 p, pts, rs, cs = c["p"], c["pts"], c["rs"], c["cs"]
                 cko = []
